@@ -24,7 +24,7 @@ def gen(rng, k, dll=None):
         s = rng.choice([0, 0, 0, 1])
         sa = addr[s]
         kind = rng.choice(['p2p', 'p2p', 'p2p', 'bam'])
-        outcome = rng.choice(['clean', 'clean', 'lost', 'abort', 'silent', 'nobody'])
+        outcome = rng.choice(['clean', 'clean', 'lost', 'abort', 'silent', 'nobody', 'rerequest'])
         sz = rng.choice([61, 100, 200]) if fd else rng.choice([9, 20, 40])
         if kind == 'bam':
             pf, ps = 0xFE, rng.randrange(256)
@@ -43,6 +43,19 @@ def gen(rng, k, dll=None):
                     inject.append(dict(t=t + 100, to=s, id=R.ref_can_id(7, 0x4D00 + sa, ps), data=P.fd_cm(15, sess, 0xFFFFFF, 0xFFFFFF, 0xFF, 1, pf << 8), fd=True))
             else:
                 inject.append(dict(t=t + 100, to=s, id=R.ref_tp_cm_id(7, sa, ps), data=R.ref_abort(1, pf << 8)))
+        elif outcome == 'rerequest' and kind == 'p2p':
+            # the (silenced) peer grants everything, then re-requests packets at / around the end of the message after
+            # all of them have been sent, and falls silent for good
+            unit = 60 if fd else 7
+            n = (sz + unit - 1) // unit
+            faults.append(dict(silent_window=[t + 1, t + 3_000_000], stack=[x for x in (0, 1, 2) if addr[x] == ps][0]))
+            grants = [(255, 1, t + 2000)] + [(rng.choice([1, 1, 2, 255]), rng.choice([n, n, n + 1, n - 1 if n > 1 else 1]), t + 400_000 + 200_000 * j) for j in range(rng.randint(1, 2))]
+            for cnt, nxt, tg in grants:
+                if fd:
+                    for sess in range(8):
+                        inject.append(dict(t=tg, to=s, id=R.ref_can_id(7, 0x4D00 + sa, ps), data=P.fd_cm(1, sess, 0xFFFFFF, nxt, cnt, 0, pf << 8), fd=True))
+                else:
+                    inject.append(dict(t=tg, to=s, id=R.ref_tp_cm_id(7, sa, ps), data=[17, cnt, nxt, 255, 255] + R.ref_pgn3(pf << 8)))
         t += rng.choice([200_000, 1_400_000, 3_300_000, 4_000_000])
     t_final = t + 4_500_000
     # afterwards: the full advertised concurrency from stack 0
